@@ -838,6 +838,9 @@ func (x *Exec) cutLoop(st *State, ls *LoopSpec, id, label string, nodes []ast.No
 			h.assume(t)
 		}
 	}
+	for _, n := range ls.Conceal {
+		x.vc.conceal[n] = true
+	}
 	for _, inv := range ls.Invariants {
 		g, facts, ok := x.evalClause(mkEnv(h), inv.Expr, "", "inv-entry", pos, inv.Text, false)
 		if !ok {
